@@ -42,6 +42,68 @@ def error_docs(c, g, n):
     return out
 
 
+ROUTES = ("build-again", "edit-and-build", "calculate-twice")
+
+
+def run_cases(docs):
+    """cg.run3 for documents that may carry a `_route` note (stream `recalculated`): the document is the
+    serialised result of a first calculation; under `calculate-twice` the implementation is not given that text
+    but reaches the same state in memory (Parse + Envelop of `_source`, then Envelope.Calculate again)."""
+    if not any(d.get("_route") == "calculate-twice" for d in docs):
+        return cg.run3(docs)
+    lines = [cg.json_line("calc2", d["_source"]) if d.get("_route") == "calculate-twice" else cg.json_line("calc", d) for d in docs]
+    return cg.run3(docs, go_lines=lines)
+
+
+def edit_calculated(rng, g, doc):
+    """what a user does to a built document before building it again: another quantity or price, a line
+    removed or repeated, another document discount - every derived figure still in place"""
+    ls = doc["lines"]
+    k = rng.randrange(5)
+    l = rng.choice(ls)
+    if k == 0:
+        l["quantity"] = rng.choice(cg.TIE_Q) if rng.random() < 0.5 else g.amt(3000, 3, True)
+    elif k == 1:
+        l["quantity"] = cg.fmt(cg.parse(l["quantity"]).add(cg.parse(l["quantity"])))
+    elif k == 2:
+        l["item"]["price"] = g.amt(200000, rng.choice([0, 1, 2, 3, 4]), tie=True)
+        l["item"].pop("alt_prices", None)
+    elif k == 3 and len(ls) > 1:
+        ls.remove(l)
+    elif k == 3:
+        ls.append(copy.deepcopy(l))
+    else:
+        doc.setdefault("discounts", []).append({"reason": "e", "percent": rng.choice(cg.PCT[:9])})
+
+
+def recalculated_docs(c, g, sources):
+    """The serialised result of a first calculation is itself a document (it is what `gobl build` of a built file,
+    a correction, or an edit-and-rebuild receives): every derived figure is already present next to the percentage,
+    rate or breakdown it derives from. Three routes to its calculation: the text as it is, the text after an edit,
+    and a second Envelope.Calculate in memory. Judged like any other input: exact arithmetic over ITS quantities,
+    prices and percentages (no comparison with the first result)."""
+    rng = c.rng
+    first = run_go([cg.json_line("calcjson", d) for d in sources])
+    out = []
+    for d, o in zip(sources, first):
+        v = parse_wire(o)
+        if not v or v[0] != b"ok":
+            continue
+        try:
+            j = json.loads(v[1].decode())
+        except ValueError:
+            continue
+        cg.drop_empty_rows(j)
+        route = rng.choice(ROUTES)
+        if route == "edit-and-build":
+            edit_calculated(rng, g, j)
+        elif route == "calculate-twice":
+            j["_source"] = cg.strip_notes(d)
+        j["_route"] = route
+        out.append(j)
+    return out
+
+
 def judge(c, res, stream, prop="C01", clause="every figure equals exact decimal arithmetic with half-away rounding at the documented points"):
     """three-way comparison; reports failing inputs. Returns number of Go/model mismatches."""
     mism = 0
@@ -62,11 +124,16 @@ def judge(c, res, stream, prop="C01", clause="every figure equals exact decimal 
         reported += 1
         if gm is not None and gp is not None:
             def fails(d):
-                x = cg.run3([d])[0]
+                x = run_cases([d])[0]
                 return x["in_domain"] and first_diff(x["go"], x["model"]) is not None and first_diff(x["go"], x["py"]) is not None
-            small = cg.shrink_doc(r["doc"], fails)
-            x = cg.run3([small])[0]
-            c.report("%s: figure `%s` computed by the implementation differs from exact arithmetic (model and independent reading agree with each other)" % (prop, first_diff(x["go"], x["model"])),
+            # (under calculate-twice the implementation is given the source, which cannot be shrunk alongside)
+            small = r["doc"] if r["doc"].get("_route") == "calculate-twice" else cg.shrink_doc(r["doc"], fails)
+            x = run_cases([small])[0]
+            route = small.get("_route")
+            how = "" if not route else {"build-again": " when an already calculated document is calculated again",
+                                        "edit-and-build": " when an already calculated document is edited and calculated again",
+                                        "calculate-twice": " after a second Envelope.Calculate of the same document in memory"}[route]
+            c.report("%s: figure `%s` computed by the implementation%s differs from exact arithmetic over the document's quantities, prices and percentages (model and independent reading agree with each other)" % (prop, first_diff(x["go"], x["model"]), how),
                      {"document": small, "implementation": x["go_raw"], "model": x["model_raw"], "clause": clause,
                       "figure": first_diff(x["go"], x["model"])})
         elif gm is not None:
@@ -316,6 +383,8 @@ def run(c):
     g = cg.Gen(c.rng)
     g.doc_types = True      # a share of the documents as bill/order and bill/delivery
     g.calc_only = True      # combos that calculate but would not validate (rate key under a country without regime)
+    g.unlabelled = True     # line / sub-line discounts and charges given by their numbers alone (no key, code or reason)
+    g.both_given = True     # percentage / rate rows (discounts, charges, advances, due dates) that also carry an amount
     n = 5000 if quick else 250000
     streams = {
         "corpus": witness_docs(),
@@ -325,11 +394,14 @@ def run(c):
         "bound-domain": simple_docs(c, g, n // 5),
         "price-rounding": price_rounding_docs(c, g, n // 25),
     }
+    # rich in what a calculated document carries next to its source: percentage advances and due dates, percentage rows
+    src = [d for d in streams["mixed"] if (d.get("payment") or {}).get("advances")][:n // 10] + streams["mixed"][:n // 10] + streams["many-lines"][:n // 250]
+    streams["recalculated"] = recalculated_docs(c, g, copy.deepcopy(src))
     ties = 0
     mism = 0
     for name, docs in streams.items():
         for i in range(0, len(docs), 20000):
-            res = cg.run3(docs[i:i + 20000])
+            res = run_cases(docs[i:i + 20000])
             mism += judge(c, res, name)
             judge_spec(c, res, name)
             for r in res[:2]:
@@ -342,7 +414,12 @@ def run(c):
                      "tie atoms (quantities 0.5/1.5/2.5/0.25/0.125, odd last digits, 0.5%/2.5%/12.5%/50%), fixed/percent/base/rate-quantity discounts and charges, "
                      "foreign-currency items by exchange rate or alternative price, advances and due dates, tax-included prices, both rules and regime defaults "
                      "(ES, EL, PT), currencies with 0/2/3 decimals; distinct = distinct documents; non-trivial = inside the 2^52 magnitude domain of C05 "
-                     "(others informational); compared: every line figure, every total, every tax group")
+                     "(others informational); compared: every line figure, every total, every tax group; line / sub-line rows with or without a "
+                     "label (reason), percentage and rate rows (discounts, charges, advances, due dates) that also carry an amount; "
+                     "stream recalculated: the serialised RESULT of a first calculation taken as the input document (every derived figure "
+                     "present), by three routes - built again as it is, edited (quantity, price, line removed / repeated, discount added) and "
+                     "built, or a second Envelope.Calculate in memory - judged like any input against the model and the python reading of that text")
+    c.cov["recalculated_routes"] = {r: sum(1 for d in streams["recalculated"] if d.get("_route") == r) for r in ROUTES}
     c.cov.pop("_spec_reported", None)
     c.cov["go_ideal_differences"] = c.cov.get("streams", {}).get("go-vs-ideal-differences", {}).get("evaluations", 0)
     c.cov["rule_spec"] = ("corr:C01:go-vs-ideal: every in-domain document of every stream, Go's presented line price / sum / total and ten totals "
@@ -360,7 +437,7 @@ def run(c):
 def replay(path):
     r = json.load(open(path))["replay"]
     build_harness()
-    x = cg.run3([r["document"]])[0]
+    x = run_cases([r["document"]])[0]
     print("implementation:", x["go_raw"])
     print("model:         ", x["model_raw"])
     print("python reading:", w(x["py"]))
